@@ -25,7 +25,7 @@ REPO = os.environ.get("VERIF_REPO", "/repo")
 NPROC = int(os.environ.get("VERIF_JOBS", str(os.cpu_count() or 8)))
 
 HYGIENE_RE = re.compile(
-    r"\b(Admitted|admit|Axiom|Axioms|Parameter|Parameters|Conjecture|Hypothesis|Variable|Variables)\b"
+    r"\b(Admitted|admit|Axiom|Axioms|Parameter|Parameters|Conjecture|Conjectures|Hypothesis|Hypotheses|Variable|Variables|Context)\b"
     r"|Unset Guard|bypass_check|type-in-type|impredicative-set|Admit Obligations|Unset Positivity|Unset Universe")
 
 # axioms declared by the standard library / Coquelicot that theorems over R may rely on
@@ -107,7 +107,7 @@ def hygiene():
             m = HYGIENE_RE.search(line)
             if m:
                 w = m.group(0)
-                if w in ("Hypothesis", "Variable", "Variables") and depth > 0:
+                if w in ("Hypothesis", "Hypotheses", "Variable", "Variables", "Context") and depth > 0:
                     continue
                 bad.append("%s:%d: %s" % (os.path.relpath(f, VERIF), ln, s))
     return bad
@@ -160,6 +160,21 @@ def check_props(pid, extra_files=()):
                       if a not in ALLOWED_AXIOMS and a.split(".")[-1] not in ALLOWED_AXIOMS})
     return dict(theorems=thms, assumptions=assum, ok=ok and not foreign, foreign_axioms=foreign,
                 log="\n".join(logs))
+
+
+def run_coqchk(pid, timeout=1500):
+    """thorough tier: re-check Props/<pid>.vo and everything it depends on with the independent checker"""
+    try:
+        r = subprocess.run(["coqchk", "-silent", "-o", "-Q", ".", "GPV", "GPV.Props." + pid], cwd=COQ,
+                           capture_output=True, text=True, timeout=timeout)
+    except subprocess.TimeoutExpired:
+        return dict(ok=False, summary="coqchk timed out")
+    txt = r.stdout + r.stderr
+    m = re.search(r"CONTEXT SUMMARY.*", txt, flags=re.S)
+    summ = re.sub(r"\s+", " ", m.group(0))[:3000] if m else txt[-1500:]
+    bad = not re.search(r"type-in-type: <none>", txt) or not re.search(r"unsafe \(co\)fixpoints: <none>", txt) \
+        or not re.search(r"positivity is assumed: <none>", txt)
+    return dict(ok=(r.returncode == 0 and not bad), summary=summ)
 
 
 # --------------------------------------------------------------------------- running the model
